@@ -27,6 +27,10 @@ func Registry() []*Spec {
 		Quick: map[string]int{"N": 3}, Thorough: map[string]int{"N": 4, "ALLCOMP": 1},
 		Covers: []string{"valid", "invalid"}, UnitDepth: 3,
 		Note: "every byte string of length <= N; reader variants behind a chunking reader (every single split point and byte-by-byte; thorough: every composition); oj.Parse vs ParseReader, Tokenizer+Builder, Tokenizer.Load+Builder, gen.Parser(+Reader)+Simplify, Validator(+Reader), and sen.Parser for valid JSON"})
+	add(Spec{Property: "C03", Name: "VerifC03_Templates", Pkg: "asm",
+		Quick: map[string]int{}, Thorough: map[string]int{},
+		Covers: []string{"valid", "invalid"}, UnitDepth: 3,
+		Note: "15 JSON skeletons (7..17 bytes: strings, keys, escapes, literals, numbers with fraction and exponent, nesting) with free symbolic bytes at the marked places, delivered whole / byte by byte / split at every position: all JSON front-ends vs oj.Parse, and - for valid JSON - sen.Parse vs sen.ParseReader vs sen.Tokenizer(+Load); SEN-only input is outside"})
 	// ---- C05: Get returns exactly what the path denotes
 	add(Spec{Property: "C05", Name: "VerifC05_Get", Pkg: "jp",
 		Quick: map[string]int{"B": 5, "STEP": 3}, Thorough: map[string]int{"FULL": 1, "B": 7, "STEP": 4},
